@@ -240,6 +240,9 @@ pub struct HttpStats {
     /// Status-200 transfers that libcurl would report as successful although
     /// the body was cut (no Content-Length, orderly close): (body id, bytes delivered).
     pub cut_but_ok_200: Vec<(u32, u32)>,
+    /// Bodies the server confirmed with 304 Not Modified: the client had sent
+    /// If-None-Match with exactly that document's validator.
+    pub revalidated_304: Vec<u32>,
     pub last_error_code: Option<u32>,
 }
 
@@ -772,6 +775,19 @@ pub fn fs_sync(_ino: u64) -> io::Result<()> {
         StepResult::Fault(e) => Err(errno(e)),
         _ => Ok(()),
     }
+}
+
+/// futimens: the modification time only.
+pub fn fs_set_mtime(ino: u64, mtime_ns: u64) -> io::Result<()> {
+    match step(OpKind::Metadata, 0)? {
+        StepResult::Fault(e) => return Err(errno(e)),
+        _ => {}
+    }
+    with(|m| {
+        let node = m.disk.inodes.get_mut(&ino).expect("inode");
+        node.mtime_ns = mtime_ns;
+        Ok(())
+    })
 }
 
 pub fn fs_set_len(ino: u64, len: u64) -> io::Result<()> {
